@@ -64,6 +64,9 @@ Connects ==
 Auths ==
     { EvC([P0 EXCEPT !.t = "AUTH", !.method = "PLAIN", !.plain = TRUE, !.plainok = TRUE, !.user = "u1", !.pass = "p1"]),
       EvC([P0 EXCEPT !.t = "AUTH", !.method = "PLAIN", !.plain = TRUE, !.plainok = FALSE, !.data = "s:u1"]),
+      \* well-formed PLAIN data with an empty password / an empty user name
+      EvC([P0 EXCEPT !.t = "AUTH", !.method = "PLAIN", !.plain = TRUE, !.plainok = TRUE, !.user = "u2", !.pass = ""]),
+      EvC([P0 EXCEPT !.t = "AUTH", !.method = "PLAIN", !.plain = TRUE, !.plainok = TRUE, !.user = "", !.pass = "p3"]),
       EvC([P0 EXCEPT !.t = "AUTH", !.method = "X", !.plain = FALSE, !.plainok = TRUE, !.user = "u1", !.pass = "p1"]) }
 Wills ==
     { EvC([P0 EXCEPT !.t = "WILLTOPIC", !.topic = "wt", !.qos = 1, !.retain = TRUE]),
@@ -125,12 +128,9 @@ Times(st) ==
 (* A well-behaved client reuses the message ID of one of its own exchanges in   *)
 (* progress only to retransmit the same request.                              *)
 SameRequest(st, e) ==
-    IF e.t = "C" /\ e.p.t = "DISCONNECT" /\ e.p.dur # 0 /\ st.cx.on THEN FALSE   \* no sleep during a connect exchange
-    ELSE IF e.t # "C" \/ e.p.t \notin {"SUBSCRIBE", "PUBLISH"} \/ e.p.mid \notin Mids(st.ctx) THEN TRUE
-    ELSE LET x == CHOOSE x \in st.ctx : x.mid = e.p.mid IN
-         IF e.p.t = "SUBSCRIBE" THEN x.kind = "sub" /\ x.tit = e.p.tit /\
-                 (IF e.p.tit = 0 THEN x.name = e.p.topic ELSE IF e.p.tit = 1 THEN x.tid = e.p.tid ELSE x.name = e.p.sname)
-         ELSE e.p.qos # 1 \/ (x.kind = "pub1" /\ x.tid = e.p.tid /\ x.tit = e.p.tit)
+    \* a connected client does not go to sleep in the middle of a connect exchange it restarted
+    IF e.t = "C" /\ e.p.t = "DISCONNECT" /\ e.p.dur # 0 /\ st.cx.on /\ st.st # "disconnected" THEN FALSE
+    ELSE TRUE
 
 EvSum(e) == EvName(e) \o (IF e.t = "C" THEN "(m" \o ToString(e.p.mid) \o ",q" \o ToString(e.p.qos) \o ",t" \o ToString(e.p.tit)
                                       \o "/" \o ToString(e.p.tid) \o "," \o e.p.topic \o e.p.sname \o ",d" \o ToString(e.p.dur) \o ",rc" \o ToString(e.p.rc) \o ")"
